@@ -217,6 +217,13 @@ def c19_jobs(Job, tier):
         js.append(last_sector_job(Job, cfg))
         js.append(sector_count_job(Job, cfg))
         js.append(visit_job(Job, cfg))
+        js += colstream_jobs(Job, cfg)
+        if cfg is CFG_ASSERT:
+            # every other extracted function that contains an assert(): the same contracts, assertions compiled in
+            js += [j for j in fileio_jobs(Job, cfg) if "presented_blockwise" in j.name or "blockwise" in j.name]
+            js += free_jobs(Job, cfg) + opus_jobs(Job, cfg) + write_span_jobs(Job, cfg)
+            js += [j for j in hxc_jobs(Job, cfg) if "header" in j.name]
+            js += [j for j in crc_jobs(Job, cfg) if j.tier == "quick"]
     return js
 
 
@@ -359,7 +366,7 @@ def gz_jobs(Job, cfg=CFG_NDEBUG, tier="quick"):
     return [Job("D_check_zlib_error_code_%s" % cfg[0], "harness/dfs_gz.c", "h_check_zlib", enforce=["check_zlib_error_code"],
                 defines=list(cfg[1]), extract=ext(g), tier=tier),
             Job("D_gz_inflate_loop_%s" % cfg[0], "harness/dfs_gz.c", "h_gz_loop", enforce=["gz_inflate_loop"], replace=["check_zlib_error_code"],
-                loops=True, defines=list(cfg[1]), extract=ext(g), tier=tier, cover=True, solver="portfolio")]
+                loops=True, defines=list(cfg[1]), extract=ext(g), tier=tier, cover=True, solver="portfolio")] + gzread_jobs(Job, cfg, tier)
 
 
 # ---- flux adapters and PicTrack (C05 / C06 image-level clause) ----------------------------------------------------------
@@ -387,3 +394,19 @@ def c05_extra(Job, tier):
 
 def c06_extra(Job, tier):            # noqa: F811
     return trackcheck_jobs(Job) + adapter_jobs(Job)[1:]
+
+
+def gzread_jobs(Job, cfg=CFG_NDEBUG, tier="quick"):
+    g = ["gz_read_fail", "DecompressedFile_read"]
+    return [Job("D_gz_read_fail_%s" % cfg[0], "harness/dfs_gzread.c", "h_gz_read_fail", enforce=["gz_read_fail"],
+                defines=list(cfg[1]), extract=ext(g), tier=tier),
+            Job("D_decompressed_file_read_%s" % cfg[0], "harness/dfs_gzread.c", "h_gz_read", enforce=["DecompressedFile_read"],
+                replace=["gz_read_fail"], defines=list(cfg[1]), extract=ext(g), tier=tier, cover=True)]
+
+
+def colstream_jobs(Job, cfg=CFG_NDEBUG, tier="quick"):
+    g = ["colstream_tab", "colstream_update_col"]
+    return [Job("D_colstream_tab_%s" % cfg[0], "harness/dfs_colstream.c", "h_tab", enforce=["colstream_tab"],
+                defines=list(cfg[1]), extract=ext(g), tier=tier),
+            Job("D_colstream_update_col_%s" % cfg[0], "harness/dfs_colstream.c", "h_update_col", enforce=["colstream_update_col"],
+                replace=["colstream_tab"], defines=list(cfg[1]), extract=ext(g), tier=tier)]
